@@ -29,6 +29,7 @@ inductive Re where
   | opt (a : Re)           -- greedy `?`
   | lazyStar (a : Re)      -- non-greedy `*?`
   | ahead (c : Nat)        -- `(?=c)` for a single literal
+  | nahead (neg : Bool) (rs : List (Nat × Nat))   -- `(?![...])`: the next character is not in the class (or there is none)
   deriving Repr, DecidableEq, Inhabited
 
 namespace Re
@@ -61,6 +62,8 @@ def ms : Re → Text → List Text
   | lazyStar a, s => lazyIter (ms a) s.length s
   | ahead _, [] => []
   | ahead c, d :: s => if c = d then [d :: s] else []
+  | nahead _ _, [] => [[]]
+  | nahead neg rs, d :: s => if clsMatch neg rs d then [] else [d :: s]
 
 /-- `re.match`: remainder after the first (highest-priority) match -/
 def matchRest (r : Re) (s : Text) : Option Text := (ms r s).head?
@@ -97,6 +100,8 @@ def m : Re → Text → (Text → Option α) → Option α
   | lazyStar a, s, k => mLazy (fun s k => m a s k) k s.length s
   | ahead _, [], _ => none
   | ahead c, d :: s, k => if c = d then k (d :: s) else none
+  | nahead _ _, [], k => k []
+  | nahead neg rs, d :: s, k => if clsMatch neg rs d then none else k (d :: s)
 
 /-- executable `re.match`: remainder after the match -/
 def exec (r : Re) (s : Text) : Option Text := m r s some
@@ -111,6 +116,7 @@ def nullable : Re → Bool
   | opt _ => true
   | lazyStar _ => true
   | ahead _ => true
+  | nahead _ _ => true
 
 /-- conservative: `covers r c` ⇒ `r` matches at the front of every `c :: s` -/
 def covers : Re → Nat → Bool
@@ -122,6 +128,7 @@ def covers : Re → Nat → Bool
   | opt _, _ => true
   | lazyStar _, _ => true
   | ahead _, _ => false
+  | nahead _ _, _ => false
 where
   /-- `total r` ⇒ `r` matches at the front of every text -/
   total : Re → Bool
@@ -133,6 +140,7 @@ where
     | opt _ => true
     | lazyStar _ => true
     | ahead _ => false
+    | nahead _ _ => false
 
 end Re
 end CssVerif
